@@ -45,6 +45,7 @@ func (h *heldSet) changed() string {
 }
 
 func famC13(rn *Runner) {
+	noRoutes = true
 	ndocs := rn.Scale(150, 2000)
 	for di := 0; di < ndocs && !rn.TooMany(); di++ {
 		d := rn.genDoc(rn.Scale(40, 110))
